@@ -23,7 +23,7 @@ def scenario_line(sc):
     etag = hexs(sc["etag"]) if sc.get("etag") is not None else "-"
     lm = sc.get("lm") or "-"
     scripts = "/".join(sc.get("scripts", []))
-    return "|".join([sc["id"], sc.get("method", "GET"), hd, str(sc["len"]), etag, lm, eh, scripts, str(sc.get("extra_polls", 3))])
+    return "|".join([sc["id"], sc.get("method", "GET"), hd, str(sc["len"]), etag, lm, eh, scripts, str(sc.get("extra_polls", 3))] + (["rope"] if sc.get("rope") else []))
 
 
 def parse_obs(line):
@@ -960,6 +960,21 @@ def fam_cond():
     LM = 1000000000
     tags = [None, "*", '"x"', '"y"', 'W/"x"', '"y", "x"', '"a, b", "x"']
     dates = [None, http_date(LM - 10), http_date(LM), http_date(LM + 10)]
+    # entity-tags whose opaque part contains / ends in a backslash (an ordinary etagc: entity-tags have no quoted-pair),
+    # a comma or a space; modification times 1 ns / 1 ms before the next second (C14's echo round trip)
+    bs = '"C:\\data\\"'
+    for etag, tl in ((bs, [bs, bs + ', "foo"', '"foo", ' + bs, 'W/' + bs]), ('"foo"', [bs + ', "foo"', '"a\\", "foo"', '"\\"', '"a b", "foo"']), ('"a b"', ['"a b"', '"a", "a b"'])):
+        for hname in ("if-match", "if-none-match"):
+            for v in tl:
+                k += 1
+                out.append({"id": "cd%d" % k, "method": "GET", "headers": [(hname, v)], "len": 10, "etag": etag, "lm": "%d.0" % LM, "scripts": ["N"], "extra_polls": 0})
+    for frac in ("999999999", "999000000", "000000001", "999999000"):
+        for hs in ([("if-modified-since", http_date(LM))], [("if-unmodified-since", http_date(LM))], [("if-modified-since", http_date(LM - 1))], [("if-unmodified-since", http_date(LM - 1))],
+                   [("if-modified-since", http_date(LM + 1))], [("if-unmodified-since", http_date(LM + 1))]):
+            for base_lm in (LM, 1700000000, 100):
+                k += 1
+                hs2 = [(n, http_date(base_lm + (int(parse_date(v)) - LM))) for n, v in hs]
+                out.append({"id": "cd%d" % k, "method": "GET", "headers": hs2, "len": 10, "etag": '"x"', "lm": "%d.%s" % (base_lm, frac), "scripts": ["N"], "extra_polls": 0})
     for etag in (None, '"x"', 'W/"x"'):
         for lm in (None, "%d.0" % LM, "%d.500000000" % LM):
             for im in tags:
@@ -979,6 +994,7 @@ def fam_cond():
 FAMILIES[("cond", "parse_modified_hdrs")] = ("serve_witness", fam_cond)
 FAMILIES[("cond", "any_match")] = ("serve_witness", fam_cond)
 FAMILIES[("cond", "none_match")] = ("serve_witness", fam_cond)
+FAMILIES[("etag", "")] = ("serve_witness", fam_cond)
 
 
 
@@ -1174,6 +1190,22 @@ def fam_glue():
             base = {"headers": hs, "len": 10, "etag": '"x"', "lm": lm, "entity_headers": [], "scripts": [], "extra_polls": 1}
             out.append(dict(base, id="gl%d" % k, method="GET"))
             out.append(dict(base, id="gl%d:h" % k, method="HEAD"))
+    # the same answers when the entity's Data type is a non-contiguous Buf (chunk() is only a prefix of the data)
+    for m, hs in (("GET", []), ("GET", [("range", "bytes=0-9")]), ("GET", [("range", "bytes=0-1,5-6")]), ("GET", [("if-match", '"nomatch"')]), ("GET", [("if-none-match", '"x"')]),
+                  ("GET", [("if-match", '"unterminated')]), ("GET", [("range", "bytes=2000-")]), ("POST", []), ("HEAD", [("if-match", '"nomatch"')])):
+        k += 1
+        out.append({"id": "gl%d" % k, "method": m, "headers": hs, "len": L, "etag": '"x"', "lm": "%d.0" % LM, "entity_headers": [], "scripts": [], "extra_polls": 1, "rope": True})
+    # repeated header lines (C13 quantifies over them; `serve` looks at the first line of each name)
+    reps = [[("range", "bytes=0-1"), ("range", "bytes=5-6")], [("range", "garbage"), ("range", "bytes=0-1")], [("if-none-match", '"a"'), ("if-none-match", '"x"')],
+            [("if-match", '"a"'), ("if-match", '"x"')], [("if-range", '"x"'), ("if-range", '"y"'), ("range", "bytes=0-1")], [("if-modified-since", "garbage"), ("if-modified-since", http_date(LM))],
+            [("if-unmodified-since", http_date(LM - 10)), ("if-unmodified-since", "x" * 300)], [("range", "bytes=" + "9" * 40 + "-"), ("range", "bytes=-" + "9" * 40)],
+            [("if-none-match", "\xff\xfe"), ("if-match", "\x80"), ("range", "\xe9"), ("if-range", "\xe9")], [("if-none-match", '"x' + "\xe9" + '"'), ("if-none-match", "*")]]
+    for hs in reps:
+        for L2 in (0, 1000):
+            k += 1
+            base = {"headers": hs, "len": L2, "etag": '"x"', "lm": "%d.0" % LM, "entity_headers": [], "scripts": [], "extra_polls": 1, "repeated": True}
+            out.append(dict(base, id="gl%d" % k, method="GET"))
+            out.append(dict(base, id="gl%d:h" % k, method="HEAD"))
     for m in ("POST", "PUT", "OPTIONS", "FOO"):
         k += 1
         out.append({"id": "gl%d" % k, "method": m, "headers": [("range", "bytes=0-1")], "len": L, "etag": '"x"', "lm": "%d.0" % LM, "scripts": [], "extra_polls": 0})
@@ -1199,6 +1231,9 @@ for _fn in ("serve_inner", "serve", "prepare_multipart"):
 
 
 def all_serve_oracles(pid, sc, o):
+    if sc.get("repeated") and pid not in ("C13", "C12", "C20"):
+        # repeated header lines are in the domain of C13 only (totality); `serve` reads the first line of each name
+        return None
     return oracle_serve(pid, sc, o) or oracle_method(pid, sc, o) or oracle_range(pid, sc, o) or oracle_cond(pid, sc, o) or oracle_whole(pid, sc, o)
 
 
@@ -1294,14 +1329,14 @@ def oracle_path(pid, sc, obs):
 
 
 GZ_TREE = {"plain": "P", "both": "P", "both.gz": "P", "gzdir": "P", "onlygz.gz": "P", "sub/both": "P", "sub/both.gz": "P", "dir.gz": "P", "both.gz.gz": "P",
-           "gzdir.gz": "D", "missing.gz": "D", "sub": "D", "dir": "D"}
+           "gzdir.gz": "D", "missing.gz": "D", "sub": "D", "dir": "D", "chardev": "P", "chardev.gz": "P"}
 GZ_CONTENT = {"plain": "P:plain", "both": "P:both", "both.gz": "Z:both", "gzdir": "P:gzdir", "onlygz.gz": "Z:onlygz", "sub/both": "P:sub/both",
-              "sub/both.gz": "Z:sub/both", "dir.gz": "Z:dir", "both.gz.gz": "Z:both.gz"}
+              "sub/both.gz": "Z:sub/both", "dir.gz": "Z:dir", "both.gz.gz": "Z:both.gz", "chardev": "P:chardev", "chardev.gz": ""}
 
 
 def fam_gz_siblings():
     out, k = [], 0
-    for path in ("plain", "both", "gzdir", "onlygz", "missing", "sub/both", "dir", "both.gz", "sub", "nothing"):
+    for path in ("plain", "both", "gzdir", "onlygz", "missing", "sub/both", "dir", "both.gz", "sub", "nothing", "chardev"):
         for ae in (None, "gzip", "identity", "gzip;q=0", "*", "gzip;q=0.5, identity;q=0.9", "br", "gzip, identity;q=0", ""):
             for auto in (1, 0):
                 k += 1
